@@ -44,6 +44,11 @@ def now_isoweekday(ex, e, st):
     return [(s1, ZV('int', dt_iso(to_val(v, s1)))) for s1, v in ex.ev(e.func.value, st)]
 
 
+def now_weekday(ex, e, st):
+    """datetime.weekday(): Monday = 0 ... Sunday = 6"""
+    return [(s1, ZV('int', dt_iso(to_val(v, s1)) - 1)) for s1, v in ex.ev(e.func.value, st)]
+
+
 def interval_wf(S, iv_obj):
     iv = S.f('_interval', iv_obj); k = Val.tk(iv); j = Int('j!wf')
     return And(Val.is_T(iv), tup_len(k) >= 0, ForAll([j], Implies(And(0 <= j, j < tup_len(k)),
@@ -151,7 +156,7 @@ def verify_recalc(run):
     H = {'attr': ATTRS, 'contains': td_contains}
     run.verify('TimeDate._is_configured', cls='TimeDate', hooks=H)
     run.verify('TimeDate.recalc', cls='TimeDate', hooks=H,
-               calls={'now.time': now_time, 'now.isoweekday': now_isoweekday})
+               calls={'now.time': now_time, 'now.isoweekday': now_isoweekday, 'now.weekday': now_weekday})
     run.verify('TimeSpan.recalc', cls='TimeSpan', hooks=H)
 
 
